@@ -531,3 +531,10 @@ add(H("dir::verif::alias_unique_any_state", ["C16"],
       "uniqueness lemma over ALL generator states (arbitrary 8.3 image, base-name length, flags, bitmaps, retry hash): after add_existing(e) the "
       "generator never yields e - including the case where e is the name's own 8.3 image and that image is a numbered form",
       "every generator state x every 11-byte entry", timeout=1800))
+
+for n_ in ("diriter_run_cut_by_deleted", "diriter_run_cut_by_label"):
+    add(H("dir::verif::ops::" + n_, ["C17", "C08", "C01"],
+          "a complete long-name run followed by a deleted short entry / volume label and then a live entry with the run's checksum: the live entry "
+          "is listed WITHOUT the foreign long name, its slot range starts behind the skipped slot",
+          "concrete slot kinds and order byte, symbolic units and short name; fixed-buffer build", build="noalloc", timeout=1500,
+          cbmc_args=FS128))
